@@ -101,12 +101,17 @@ func tarBytes(files []FileSpec) []byte {
 	tw := tar.NewWriter(&buf)
 	for _, f := range files {
 		h := &tar.Header{Name: f.Name, Mode: 0o644, ModTime: unix(timeTable[f.MTime]), Format: tar.FormatUSTAR}
+		if len(f.Name) > 99 {
+			h.Format = tar.FormatPAX
+		}
 		body := fileContent(f)
 		switch f.Type {
 		case "d":
 			h.Typeflag, h.Mode, h.Name = tar.TypeDir, 0o755, f.Name+"/"
 		case "l":
 			h.Typeflag, h.Linkname, h.Mode = tar.TypeSymlink, "../bin/app", 0o777
+		case "h":
+			h.Typeflag, h.Linkname = tar.TypeLink, "bin/app"
 		default:
 			h.Typeflag, h.Size = tar.TypeReg, int64(len(body))
 		}
@@ -185,7 +190,7 @@ type jDesc struct {
 
 type jManifest struct {
 	SchemaVersion int               `json:"schemaVersion"`
-	MediaType     string            `json:"mediaType"`
+	MediaType     string            `json:"mediaType,omitempty"`
 	ArtifactType  string            `json:"artifactType,omitempty"`
 	Config        jDesc             `json:"config"`
 	Layers        []jDesc           `json:"layers"`
@@ -195,7 +200,7 @@ type jManifest struct {
 
 type jIndex struct {
 	SchemaVersion int               `json:"schemaVersion"`
-	MediaType     string            `json:"mediaType"`
+	MediaType     string            `json:"mediaType,omitempty"`
 	Manifests     []jDesc           `json:"manifests"`
 	Annotations   map[string]string `json:"annotations,omitempty"`
 }
@@ -309,6 +314,7 @@ type imgModel struct {
 	Digest     string
 	Size       int64
 	IsAttest   bool
+	IsArtifact bool
 }
 
 type manifestRec struct {
@@ -334,6 +340,9 @@ type built struct {
 	BaseManifests map[string]manifestRec
 	BaseTags      map[string]string
 	HasForeign    bool
+	Nested        bool
+	InnerAnnots   map[string]string // annotations of the inner index when the index is nested
+	InnerSize     int64
 }
 
 type imgParts struct {
@@ -370,7 +379,9 @@ func buildImage(family string, arch string, layers []LayerSpec, hist []HistSpec,
 		raw := tarBytes(l.Files)
 		blob := compress(l.Comp, raw)
 		d := sha256Dig(blob)
-		blobs[d] = blob
+		if !(l.Foreign && l.ForeignAbsent) {
+			blobs[d] = blob
+		}
 		mt := layerMT(family, l.Comp, l.Foreign)
 		desc := jDesc{MediaType: mt, Digest: d, Size: int64(len(blob))}
 		if l.Foreign {
@@ -386,8 +397,13 @@ func buildImage(family string, arch string, layers []LayerSpec, hist []HistSpec,
 	}
 	if hasHist {
 		for _, h := range hist {
-			cfg.History = append(cfg.History, jHist{Created: rfc3339(timeTable[h.Created]), CreatedBy: h.CreatedBy, Author: h.Author, Comment: h.Comment, EmptyLayer: h.Empty})
-			mdl.Times = append(mdl.Times, timeTable[h.Created])
+			jh := jHist{Created: rfc3339(timeTable[h.Created]), CreatedBy: h.CreatedBy, Author: h.Author, Comment: h.Comment, EmptyLayer: h.Empty}
+			if h.NoCreated {
+				jh.Created = ""
+			} else {
+				mdl.Times = append(mdl.Times, timeTable[h.Created])
+			}
+			cfg.History = append(cfg.History, jh)
 			mdl.CreatedBys = append(mdl.CreatedBys, h.CreatedBy)
 		}
 	}
@@ -424,9 +440,58 @@ func buildImage(family string, arch string, layers []LayerSpec, hist []HistSpec,
 		mdl.ConfigData = true
 	}
 	mdl.ConfigSize, mdl.ConfigMT, mdl.ManifestMT = int64(len(cb)), cfgMT, man.MediaType
+	storeMT := man.MediaType
+	if im != nil && im.NoMTField && family == "oci" {
+		man.MediaType = "" // optional in the OCI image spec; the store / parent descriptor carries the type
+	}
 	body := styledJSON(man, pretty)
 	mdl.Digest, mdl.Size = sha256Dig(body), int64(len(body))
-	return manifestRec{MT: man.MediaType, Body: body}, mdl
+	return manifestRec{MT: storeMT, Body: body}, mdl
+}
+
+// baseLoc tells where the base images live.
+func baseLoc(c Case) (host, repo string) {
+	switch c.BaseLoc {
+	case "src-repo":
+		return hostA, repoSrc
+	case "host2":
+		return hostB, repoBase
+	}
+	return hostA, repoBase
+}
+
+const mtCustomConfig = "application/vnd.example.config.v1+json"
+
+// buildArtifact serialises an artifact source (no image config, non-tar blobs).
+func buildArtifact(a *ArtSpec, b *built) {
+	man := jManifest{SchemaVersion: 2, MediaType: mtOCIManifest, ArtifactType: a.ArtifactType, Layers: []jDesc{}, Annotations: pairsMap(a.Annots)}
+	mdl := imgModel{Family: "oci", ManifestMT: mtOCIManifest, Ports: map[string]bool{}, Volumes: map[string]bool{}, Annots: pairsMap(a.Annots), IsArtifact: true}
+	cfg, cfgMT := []byte("{}"), mtOCIEmpty
+	if a.ConfigMT == "custom" {
+		cfg, cfgMT = []byte(`{"kind":"example","version":1}`), mtCustomConfig
+	}
+	cd := sha256Dig(cfg)
+	b.Blobs[cd] = cfg
+	man.Config = jDesc{MediaType: cfgMT, Digest: cd, Size: int64(len(cfg))}
+	mdl.ConfigMT, mdl.ConfigSize = cfgMT, int64(len(cfg))
+	blobs := a.Blobs
+	for _, x := range blobs {
+		d := sha256Dig([]byte(x))
+		b.Blobs[d] = []byte(x)
+		man.Layers = append(man.Layers, jDesc{MediaType: a.ArtifactType, Digest: d, Size: int64(len(x))})
+		mdl.Layers = append(mdl.Layers, layerModel{MT: a.ArtifactType, Comp: "none", Size: int64(len(x)), Digest: d})
+	}
+	if len(blobs) == 0 {
+		d := sha256Dig([]byte("{}"))
+		b.Blobs[d] = []byte("{}")
+		man.Layers = append(man.Layers, jDesc{MediaType: mtOCIEmpty, Digest: d, Size: 2})
+		mdl.Layers = append(mdl.Layers, layerModel{MT: mtOCIEmpty, Comp: "none", Size: 2, Digest: d})
+	}
+	body := mustJSON(man)
+	mdl.Digest, mdl.Size = sha256Dig(body), int64(len(body))
+	b.Manifests[mdl.Digest] = manifestRec{MT: mtOCIManifest, Body: body}
+	b.Images = []imgModel{mdl}
+	b.Top, b.TopMT, b.TopAnnots = mdl.Digest, mtOCIManifest, mdl.Annots
 }
 
 // partsOf returns the full layer and history lists of an image (base prefix included).
@@ -476,12 +541,19 @@ func build(c Case) *built {
 			b.BaseTags["cur"] = oldD
 		}
 		if c.Base.Annotate {
-			baseAnnots[annoBaseName] = hostA + "/" + repoBase + ":cur"
+			bh, br := baseLoc(c)
+			baseAnnots[annoBaseName] = bh + "/" + br + ":cur"
 			baseAnnots[annoBaseDig] = oldD
 		}
 	}
 	var recs []manifestRec
+	if c.Artifact != nil {
+		buildArtifact(c.Artifact, b)
+	}
 	for i := range c.Images {
+		if c.Artifact != nil {
+			break
+		}
 		im := c.Images[i]
 		p := partsOf(c, im)
 		var extra map[string]string
@@ -498,7 +570,9 @@ func build(c Case) *built {
 		b.Images = append(b.Images, m)
 		recs = append(recs, rec)
 	}
-	if c.Index == "" {
+	if c.Artifact != nil {
+		// built above
+	} else if c.Index == "" {
 		b.Top, b.TopMT, b.TopAnnots = b.Images[0].Digest, recs[0].MT, b.Images[0].Annots
 	} else {
 		idx := jIndex{SchemaVersion: 2, MediaType: mtOCIIndex}
@@ -537,17 +611,33 @@ func build(c Case) *built {
 				Layers: []layerModel{{MT: mtInToto, Comp: "none", Size: int64(len(stmt)), Digest: sd, DiffID: sd}}})
 		}
 		ann := pairsMap(c.IndexAnnots)
-		for k, v := range baseAnnots {
-			if ann == nil {
-				ann = map[string]string{}
+		if !c.Nested {
+			for k, v := range baseAnnots {
+				if ann == nil {
+					ann = map[string]string{}
+				}
+				ann[k] = v
 			}
-			ann[k] = v
 		}
 		idx.Annotations = ann
+		storeMT := idx.MediaType
+		if c.IdxNoMT && c.Index == "oci" {
+			idx.MediaType = ""
+		}
 		body := styledJSON(idx, c.IndexPretty)
-		b.Top, b.TopMT, b.TopAnnots = sha256Dig(body), idx.MediaType, ann
-		b.Manifests[b.Top] = manifestRec{MT: idx.MediaType, Body: body}
+		b.Top, b.TopMT, b.TopAnnots = sha256Dig(body), storeMT, ann
+		b.Manifests[b.Top] = manifestRec{MT: storeMT, Body: body}
 		b.IsIndex, b.ChildData = true, c.ChildData
+		if c.Nested {
+			outer := jIndex{SchemaVersion: 2, MediaType: storeMT, Manifests: []jDesc{{MediaType: storeMT, Digest: b.Top, Size: int64(len(body))}}}
+			if len(baseAnnots) > 0 {
+				outer.Annotations = baseAnnots
+			}
+			ob := mustJSON(outer)
+			b.Nested, b.InnerAnnots, b.InnerSize = true, ann, int64(len(body))
+			b.Top, b.TopAnnots = sha256Dig(ob), outer.Annotations
+			b.Manifests[b.Top] = manifestRec{MT: storeMT, Body: ob}
+		}
 	}
 	// referrers
 	for _, r := range c.Referrers {
